@@ -263,6 +263,8 @@ def _bytes_cast(ev, args, kwargs, fr):
             fr.facts = f2
             return v
         return T.raise_('TypeError')
+    if T.is_op(x, 'BARR'):
+        return x[2]
     if T.type_of(x) == 'bytes':
         return x
     if T.tag(x) in ('list', 'tuple') and all(T.is_const(i) and isinstance(i[1], int) for i in x[1]):
@@ -270,6 +272,10 @@ def _bytes_cast(ev, args, kwargs, fr):
             return T.const(bytes(i[1] for i in x[1]))
         except ValueError:
             return T.raise_('ValueError')
+    if T.tag(x) in ('list', 'tuple') and x[1] and all(T.type_of(i) in ('int', 'bool') for i in x[1]):
+        # bytes((a, b, ...)) of integers: one byte each (ValueError outside 0..255, where the one-byte serialisation
+        # refuses with OverflowError - a refusal either way)
+        return T.cat(*[T.ser(i, T.const(1), T.const('big')) for i in x[1]])
     if T.is_const(x) and isinstance(x[1], int):
         return T.const(bytes(x[1]))
     return T.raw_op('BYTES', x)
@@ -395,6 +401,21 @@ def _ext_call(ev, dotted, args, kwargs, fr, node):
             return to_str(ev, args[0], fr)
         if short == 'bytes':
             return _bytes_cast(ev, args, kwargs, fr)
+        if short == 'bytearray' and len(args) <= 1 and not kwargs:
+            inner = _bytes_cast(ev, args, kwargs, fr)
+            if T.tag(inner) == 'raise' or T.type_of(inner) != 'bytes':
+                return inner if T.tag(inner) == 'raise' else T.opaque('bytearray of a value that is not known to be bytes')
+            return T.raw_op('BARR', inner)
+        if short == 'memoryview' and len(args) == 1 and not kwargs:
+            # a read-only view of bytes: indexing, slicing, len, bytes() and int.from_bytes see the bytes themselves
+            if T.is_op(args[0], 'BARR'):
+                return args[0][2]
+            if T.type_of(args[0]) == 'bytes':
+                return args[0]
+            return T.opaque('memoryview of a value that is not known to be bytes')
+        if short == 'divmod' and len(args) == 2 and not kwargs and not all(T.is_const(a) for a in args) \
+                and all(T.type_of(a) in ('int', 'bool') for a in args):
+            return T.tup([T.floordiv(args[0], args[1]), T.mod(args[0], args[1])])
         if short == 'bool':
             return T.truth(args[0]) if args else T.FALSE
         if short == 'isinstance':
@@ -521,6 +542,10 @@ def _ext_call(ev, dotted, args, kwargs, fr, node):
     if dotted == 'unicodedata.normalize':
         form, s = args[0], args[1]
         return normalize(form, s)
+    if dotted == 'unicodedata.ucd_3_2_0.normalize' and len(args) == 2 and not kwargs:
+        # the frozen Unicode 3.2 database: a different function from the interpreter's current normalisation
+        # (code points that gained a decomposition after Unicode 3.2 are left alone)
+        return T.raw_op('NORM_UNICODE_3_2_0', args[0], args[1])
     if dotted == 'unicodedata.is_normalized' and len(args) == 2 and not kwargs:
         # by definition: the string equals its normal form
         return T.eq(normalize(args[0], args[1]), args[1])
@@ -682,6 +707,8 @@ def method_call(ev, recv, name, args, kwargs, fr, node):
             items = ev._consume(recv)
             return T.opaque('next() on a one-shot iterator')
         return T.raise_('AttributeError')
+    if T.is_op(recv, 'BARR') and name not in MUTATOR_NAMES:
+        recv = recv[2]          # reading methods of a bytearray are those of the bytes it holds
     tb = T.type_of(recv)
     if tb == 'argparser':
         if name in ('exit', 'error'):
@@ -879,6 +906,15 @@ def method_call(ev, recv, name, args, kwargs, fr, node):
             if name == 'append' and T.tag(cur) == 'list' and len(args) == 1:
                 fr.env[var] = T.lst(list(cur[1]) + [args[0]])
                 return T.NONE
+            if T.is_op(cur, 'BARR') and name in ('append', 'extend') and len(args) == 1:
+                if name == 'append' and T.type_of(args[0]) in ('int', 'bool'):
+                    fr.env[var] = T.raw_op('BARR', T.cat(cur[2], T.ser(args[0], T.const(1), T.const('big'))))
+                    return T.NONE
+                if name == 'extend':
+                    more = _bytes_cast(ev, [args[0]], {}, fr)
+                    if T.tag(more) != 'raise' and T.type_of(more) == 'bytes':
+                        fr.env[var] = T.raw_op('BARR', T.cat(cur[2], more))
+                        return T.NONE
             if name == 'extend' and T.tag(cur) == 'list' and T.tag(args[0]) in ('list', 'tuple'):
                 fr.env[var] = T.lst(list(cur[1]) + list(args[0][1]))
                 return T.NONE
